@@ -342,13 +342,15 @@ def compare_obs(impl_o, model_s, ntypes, nctx):
     m = parse_model_obs(model_s)
     diffs = []
     for u in range(ntypes):
-        fragile = m.get(f"fragile{u}") == "true"
+        # a live directory without any file (crash leftover listed as live by restart) makes the segment flow
+        # of a read fail as a whole now and then, like an in-flight directory without files (known findings)
+        fragile = m.get(f"fragile{u}") == "true" or m.get("incomplete", "") != ""
         if impl_o[f"sel{u}"] != sorted(ints(m.get(f"sel{u}", ""))) and not (
                 fragile and impl_o[f"sel{u}"] == sorted(ints(m.get(f"selm{u}", "")))):
             diffs.append(f"sel{u}: impl {impl_o[f'sel{u}']} model {m.get(f'sel{u}')}")
         # COUNT while a flush is in flight is schedule dependent in the implementation (the two flows race);
         # the correspondence compares it at quiescent observations only (the property oracle still checks it)
-        if not impl_o.get("parked_at") and impl_o[f"cnt{u}"] != int(m.get(f"cnt{u}", "0") or 0):
+        if not impl_o.get("parked_at") and not fragile and impl_o[f"cnt{u}"] != int(m.get(f"cnt{u}", "0") or 0):
             diffs.append(f"cnt{u}: impl {impl_o[f'cnt{u}']} model {m.get(f'cnt{u}')}")
     for u in range(ntypes):
         for c in range(nctx):
@@ -364,7 +366,7 @@ def compare_obs(impl_o, model_s, ntypes, nctx):
                 if len(set(got)) != len(got) or not (allr - stale <= set(got) <= allr):
                     diffs.append(f"rp{key}: impl {impl_o[f'rp{key}']} model mem {m.get(f'rm{key}')} / seg {m.get(f'rs{key}')} (as sets)")
             elif not is_interleaving(impl_o[f"rp{key}"], ints(m.get(f"rm{key}", "")), ints(m.get(f"rs{key}", ""))) and not (
-                    m.get(f"fragile{u}") == "true" and impl_o[f"rp{key}"] == ints(m.get(f"rm{key}", ""))):
+                    (m.get(f"fragile{u}") == "true" or m.get("incomplete", "") != "") and impl_o[f"rp{key}"] == ints(m.get(f"rm{key}", ""))):
                 diffs.append(f"rp{key}: impl {impl_o[f'rp{key}']} not an interleaving of model mem {m.get(f'rm{key}')} / seg {m.get(f'rs{key}')}")
     if "0" in m.get("bok", "").split(","):
         diffs.append(f"a compaction batch is not one the modelled policy can produce: bok={m.get('bok')}")
